@@ -542,6 +542,104 @@ func c09_4(c *core.Ctx, p *core.Prog) {
 	if len(flushCalls) == 0 {
 		c.Undecided("flush", "?", "", "no size-triggered send found outside the shard loop")
 	}
+	// (a') the flush function is itself reached under no further condition: a test in its caller (an early return
+	// "nothing can be sent yet" before the call) is part of the send condition and is judged together with it
+	seenCaller := map[ssa.Instruction]bool{}
+	for _, ci := range flushCalls {
+		F := ci.Parent()
+		condsF, gF, cxF, errF := guardOfCall(p, ci)
+		if errF != nil || cxF {
+			continue // reported above
+		}
+		for _, G := range cbpFuncs(c, p) {
+			if G == F {
+				continue
+			}
+			G := G
+			core.EachInstr(G, func(i ssa.Instruction) {
+				if !isCallTo(i, F) || seenCaller[i] {
+					return
+				}
+				seenCaller[i] = true
+				condsG, _, cxG, errG := guardOfCall(p, i)
+				if errG != nil || cxG {
+					c.Undecided(fmt.Sprintf("flush-reach@%s", core.FuncName(G)), p.Pos(i.Pos()), core.FuncName(G), "path condition of the call of the flush function not recognised")
+					return
+				}
+				if len(condsG) == 0 {
+					return
+				}
+				// locals of the caller that hold the current count (`after := b.batch.itemCount()` with no add in between)
+				pk, file := p.FileOf(i.Pos())
+				body := core.FuncBodyAt(file, i.Pos())
+				curCount := map[types.Object]bool{}
+				if body != nil {
+					var defs []*ast.AssignStmt
+					var adds []token.Pos
+					ast.Inspect(body, func(n ast.Node) bool {
+						switch x := n.(type) {
+						case *ast.AssignStmt:
+							defs = append(defs, x)
+						case *ast.CallExpr:
+							if sel, ok := x.Fun.(*ast.SelectorExpr); ok {
+								if o := pk.TypesInfo.Uses[sel.Sel]; o != nil && o != types.Object(a.mCount) {
+									if fo, ok := o.(*types.Func); ok && fo.Type().(*types.Signature).Recv() != nil && core.NamedOf(fo.Type().(*types.Signature).Recv().Type()) == core.NamedOf(a.mCount.Type().(*types.Signature).Recv().Type()) {
+										adds = append(adds, x.Pos())
+									}
+								}
+							}
+						}
+						return true
+					})
+					for _, as := range defs {
+						if len(as.Lhs) != 1 || len(as.Rhs) != 1 || as.Pos() > i.Pos() {
+							continue
+						}
+						id, ok := as.Lhs[0].(*ast.Ident)
+						call, ok2 := as.Rhs[0].(*ast.CallExpr)
+						if !ok || !ok2 {
+							continue
+						}
+						sel, ok := call.Fun.(*ast.SelectorExpr)
+						if !ok || pk.TypesInfo.Uses[sel.Sel] != types.Object(a.mCount) {
+							continue
+						}
+						stale := false
+						for _, ap := range adds {
+							if ap > as.Pos() && ap < i.Pos() {
+								stale = true
+							}
+						}
+						obj := pk.TypesInfo.Defs[id]
+						if obj == nil {
+							obj = pk.TypesInfo.Uses[id]
+						}
+						if obj != nil && !stale {
+							curCount[obj] = true
+						}
+					}
+				}
+				gF.Roles = func(obj types.Object, e ast.Expr) (string, bool) {
+					if obj != nil && curCount[obj] {
+						return "count", true
+					}
+					return roles(obj, e)
+				}
+				all := append(append([]core.Cond{}, condsG...), condsF...)
+				ok, w, n, err := compareGuard(gF, all, []string{"count", "size", "?timer"}, smallDom, func(env map[string]int64) bool {
+					return env["count"] > 0 && (env["?timer"] == 0 || env["count"] >= env["size"])
+				}, "equiv")
+				c.Stats["guard_valuations"] += n
+				key := fmt.Sprintf("flush-reach@%s", core.FuncName(G))
+				if err != nil {
+					c.Undecided(key, p.Pos(i.Pos()), core.FuncName(G), err.Error())
+					return
+				}
+				c.Check(ok, key, p.Pos(i.Pos()), core.FuncName(G), "the flush test is reached under a condition that does not change when a send happens: "+condString(all),
+					"the flush function is called only when "+condString(condsG)+": together with its own test the send condition "+condString(all)+" differs from 'count>0 ∧ (¬timer ∨ count≥size)' at "+w+": with no timer (timeout 0) a request below send_batch_size is not passed on at once but waits for later traffic or shutdown")
+			})
+		}
+	}
 	// (b) timer existence
 	var newTimer ssa.Instruction
 	findTimer := func(f *ssa.Function) {
